@@ -280,9 +280,41 @@ type checker struct {
 }
 
 func (k *checker) bad(kind, format string, a ...any) {
-	if len(k.vs) < 12 {
+	if len(k.vs) < 40 {
 		k.vs = append(k.vs, vk.V(kind, format, a...))
 	}
+}
+
+// knownColonKey recognises the open finding "legacy scheme: an attribute key
+// containing ':' is escaped with the METRIC name rule, which keeps the colon,
+// so the label name is illegal and every series of the instrument is dropped
+// (reported through otel.Handle)": exactly the missing family of an
+// instrument that has such a key, and the handled error that names the label.
+func knownColonKey(c Case, v vk.Violation) bool {
+	if !c.Legacy {
+		return false
+	}
+	switch v.Kind {
+	case "family_missing":
+		i, ok := v.Observed.(int)
+		if !ok || i < 0 || i >= len(c.Insts) {
+			return false
+		}
+		for _, key := range c.Insts[i].Keys {
+			if strings.Contains(key, ":") {
+				return true
+			}
+		}
+	case "error_handled_during_scrape":
+		for i := range c.Insts {
+			for _, key := range c.Insts[i].Keys {
+				if strings.Contains(key, ":") && strings.Contains(v.Msg, fmt.Sprintf("first: %q is not a valid label name", key)) {
+					return true
+				}
+			}
+		}
+	}
+	return false
 }
 
 func labelMap(m *dto.Metric) map[string]string {
@@ -468,7 +500,9 @@ func (k *checker) exact(tag string, mfs []*dto.MetricFamily, gerr error, rm *met
 			continue
 		}
 		if mf == nil {
-			k.bad(k.nameKind(in, ref, mfs), "%s: instrument %d (%s %q unit %q): no family named %s among %v", tag, i, in.Kind, clip(in.Name), in.Unit, strings.Join(quoteAll(ref.cands), " | "), familyNames(mfs))
+			v := vk.V(k.nameKind(in, ref, mfs), "%s: instrument %d (%s %q unit %q): no family named %s among %v", tag, i, in.Kind, clip(in.Name), in.Unit, strings.Join(quoteAll(ref.cands), " | "), familyNames(mfs))
+			v.Observed = i // the instrument, for the known-finding matcher
+			k.vs = append(k.vs, v)
 			continue
 		}
 		wantType := dto.MetricType_GAUGE
